@@ -149,6 +149,16 @@ type Sim struct {
 	salt         uint32
 	events       []Event
 	nevents      int
+
+	// trigger: the n-th Yield of a given kind releases the tasks parked in WaitTrigger
+	// and makes the scheduler run one of them next
+	trigKind  string
+	trigN     int
+	trigCount int
+	trigFired bool
+	trigw     [64]*task
+	ntrigw    int
+	force     int
 }
 
 var active *Sim
@@ -227,9 +237,100 @@ func Yield(site string, kind string) {
 	t := s.current()
 	t.site, t.kind = site, kind
 	s.mu.Lock()
+	if s.trigKind != "" && !s.trigFired && kind == s.trigKind {
+		s.trigCount++
+		if s.trigCount == s.trigN {
+			s.fireLocked()
+		}
+	}
 	t.state = 1
 	s.parked[s.nparked] = t
 	s.nparked++
+	s.mu.Unlock()
+	s.poke()
+	<-t.wake
+	raceEnable()
+}
+
+//go:norace
+func (s *Sim) fireLocked() {
+	s.trigFired = true
+	for i := 0; i < s.ntrigw; i++ {
+		w := s.trigw[i]
+		w.state = 1
+		s.parked[s.nparked] = w
+		s.nparked++
+		s.force = w.id
+		s.trigw[i] = nil
+	}
+	s.ntrigw = 0
+}
+
+// SetTrigger arms the trigger: the n-th Yield of the given kind (counted from now)
+// fires it. Used to land a cancellation exactly before a chosen poll of the cancel flag.
+//
+//go:norace
+func SetTrigger(kind string, n int) {
+	s := active
+	if s == nil {
+		return
+	}
+	raceDisable()
+	s.mu.Lock()
+	s.trigKind, s.trigN, s.trigCount, s.trigFired = kind, n, 0, false
+	s.mu.Unlock()
+	raceEnable()
+}
+
+// TriggerCount reports how many Yields of the armed kind were seen since SetTrigger.
+//
+//go:norace
+func TriggerCount() int {
+	s := active
+	if s == nil {
+		return 0
+	}
+	return s.trigCount
+}
+
+// FireTrigger fires the trigger now (releases WaitTrigger callers) if it has not fired.
+//
+//go:norace
+func FireTrigger() {
+	s := active
+	if s == nil {
+		return
+	}
+	raceDisable()
+	s.mu.Lock()
+	if !s.trigFired {
+		s.fireLocked()
+	}
+	s.mu.Unlock()
+	raceEnable()
+}
+
+// WaitTrigger parks the calling task until the trigger fires; the scheduler then runs
+// it before anything else.
+//
+//go:norace
+func WaitTrigger() {
+	s := active
+	if s == nil {
+		return
+	}
+	raceDisable()
+	t := s.current()
+	t.site, t.kind = "harness", "trigger"
+	s.mu.Lock()
+	if s.trigFired {
+		s.mu.Unlock()
+		raceEnable()
+		return
+	}
+	t.state = 3
+	s.trigw[s.ntrigw] = t
+	s.ntrigw++
 	s.mu.Unlock()
 	s.poke()
 	<-t.wake
@@ -311,7 +412,7 @@ func Run(t *testing.T, cfg Config, root func()) *Sim {
 	if cfg.Sched == nil {
 		cfg.Sched = ReplayTape(nil)
 	}
-	s := &Sim{cfg: cfg, last: -1, events: make([]Event, maxEvents)}
+	s := &Sim{cfg: cfg, last: -1, force: -1, events: make([]Event, maxEvents)}
 	for i := range s.pctChange {
 		s.pctChange[i] = -1
 	}
@@ -393,6 +494,15 @@ func (s *Sim) pick(n int) int {
 		}
 		if s.parked[i].id > s.parked[highest].id {
 			highest = i
+		}
+	}
+	if s.force >= 0 {
+		f := s.force
+		s.force = -1
+		for i := 0; i < n; i++ {
+			if s.parked[i].id == f {
+				return i
+			}
 		}
 	}
 	if n == 1 {
